@@ -11,6 +11,8 @@ import (
 	"strings"
 	"sync"
 
+	"verif/vrt"
+
 	"github.com/csgura/fp"
 	"github.com/csgura/fp/future"
 	"github.com/csgura/fp/iterator"
@@ -151,6 +153,7 @@ type inst struct {
 }
 
 type B struct {
+	w     *vrt.W
 	src   []fp.Promise[int]
 	q     *queueExec
 	mu    sync.Mutex
@@ -162,8 +165,8 @@ type B struct {
 	hits  map[string]int
 }
 
-func newB(nsrc int) *B {
-	b := &B{q: &queueExec{}, calls: map[string]int{}, hits: map[string]int{}}
+func newB(w *vrt.W, nsrc int) *B {
+	b := &B{w: w, q: &queueExec{}, calls: map[string]int{}, hits: map[string]int{}}
 	for i := 0; i < nsrc; i++ {
 		b.src = append(b.src, fp.NewPromise[int]())
 	}
@@ -234,6 +237,7 @@ func (b *B) fnRes(n *Node, env []int, xs ...int) (int, error) {
 	case 1:
 		return 0, errs[userErr(n.K, xs...)]
 	case 2:
+		b.w.Site(n.Op) // a process-fatal panic is attributed to this call site
 		panic(panicVal(n.K % 10))
 	}
 	return w31(n.K, xs...), nil
@@ -307,6 +311,7 @@ func (b *B) build0(n *Node, env []int) fp.Future[int] {
 		return future.Apply(func() int {
 			b.call(n, 0, env, nil)
 			if n.Mode == 1 {
+				b.w.Site(n.Op)
 				panic(panicVal(k % 10))
 			}
 			return k
@@ -318,6 +323,7 @@ func (b *B) build0(n *Node, env []int) fp.Future[int] {
 			case 1:
 				return 0, errs[userErr(k)]
 			case 2:
+				b.w.Site(n.Op)
 				panic(panicVal(k % 10))
 			}
 			return k, nil
